@@ -35,6 +35,7 @@ import pathlib
 import random
 import re
 import os
+import typing
 import uuid
 
 import impl
@@ -43,14 +44,20 @@ from lib import coq_list, coq_Z
 from props import c04
 
 COQ_TARGETS = ["theories/Props/LeafBridge.vo", "theories/Model/LeafBridgeEq.vo"]
-THEOREMS = ["LB_unm_results_of_class", "LB_unm_isinstance_pass", "LB_scalar_round_exact", "LB_scalar_round_sim",
+THEOREMS = ["LB_unm_results_of_class", "LB_unm_results_instances", "LB_unm_isinstance_pass", "LB_exact_is_instance",
+            "LB_literal_marshal", "LB_scalar_round_exact", "LB_scalar_round_sim",
             "LB_marshal_wire", "LB_enum_guard_of_text", "LB_round_laws", "LB_leaf_round_sim", "LB_leaf_m_inj",
-            "LB_none_laws", "LB_pass_laws", "LB_idem_laws", "LB_leaf_laws", "LB_marshal_laws",
+            "LB_none_laws", "LB_pass_laws", "LB_pass_laws_instances", "LB_idem_laws", "LB_load_laws_from_serdes",
+            "LB_load_nontext_from_serdes", "LB_induced_load_law", "LB_leaf_laws", "LB_marshal_laws",
             "C01_roundtrip_from_interpreter_laws", "C01_union_fixpoint_from_interpreter_laws",
-            "C13_passthrough_from_scalar_model", "C13_idempotent_from_scalar_model", "C03_conforms_from_scalar_model",
-            "C06_wire_from_scalar_model", "LB_refuted_round_exact_with_fold", "LB_refuted_fold_scalar",
-            "LB_refuted_enum_bytes_value", "LB_zero_duration_roundtrips"]
-EXAMPLES = ["LB_coding_law_satisfiable", "LB_laws_satisfiable", "LB_C01_instance"]
+            "C13_passthrough_from_scalar_model", "C13_idempotent_from_scalar_model",
+            "C13_passthrough_instances_from_scalar_model", "C13_passthrough_from_serdes_model",
+            "C13_idempotent_from_serdes_model", "C03_conforms_from_scalar_model",
+            "C06_wire_from_scalar_model", "C06_literal_rejects_from_scalar_model", "LB_refuted_round_exact_with_fold",
+            "LB_refuted_fold_scalar", "LB_refuted_enum_bytes_value", "LB_refuted_pattern_flags",
+            "LB_refuted_round_for_instances", "LB_zero_duration_roundtrips"]
+EXAMPLES = ["LB_coding_law_satisfiable", "LB_std_shape_laws", "LB_serdes_load_satisfiable", "LB_laws_satisfiable",
+            "LB_C01_instance"]
 PROPS = [("Props/LeafBridge.v", THEOREMS)]
 
 TD = D.timedelta
@@ -70,16 +77,36 @@ class ETuple(enum.Enum):          # inside: the value is looked up as it is
     n = None
 
 
-# kind -> (C04's routine name for the unmarshal side, how the target type is chosen)
+# kind -> C04's routine name for the unmarshal side; a Literal kind is the pair ("LLit", declared values)
 KINDS = {
-    "LInt": ("RInt", lambda rng: int), "LFloat": ("RFloat", lambda rng: float), "LStr": ("RStr", lambda rng: str),
-    "LBytes": ("RBytes", lambda rng: bytes), "LDec": ("RDec", lambda rng: decimal.Decimal),
-    "LFrac": ("RFrac", lambda rng: fractions.Fraction), "LUuid": ("RUuid", lambda rng: uuid.UUID),
-    "LPath": ("RPath", None), "LEnum": ("REnum", None), "LDate": ("RDate", lambda rng: D.date),
-    "LDateTime": ("RDateTime", lambda rng: D.datetime), "LTime": ("RTime", lambda rng: D.time),
-    "LTimeDelta": ("RTimeDelta", lambda rng: TD),
+    "LInt": "RInt", "LFloat": "RFloat", "LStr": "RStr", "LBytes": "RBytes", "LDec": "RDec", "LFrac": "RFrac",
+    "LUuid": "RUuid", "LPath": "RPath", "LEnum": "REnum", "LDate": "RDate", "LDateTime": "RDateTime", "LTime": "RTime",
+    "LTimeDelta": "RTimeDelta", "LBool": "RBool", "LPattern": "RPattern", "LNone": "RNone", "LLit": "RLit",
 }
 LEAF_ENUMS = c04.ENUMS + [ETuple, EBytes]
+MIXINS = [c04.ESMix.a, c04.ESMix.five, c04.EIntEnum.x, c04.EIntEnum.y]
+
+
+def kname(kind) -> str:
+    return kind[0] if isinstance(kind, tuple) else kind
+
+
+def kterm(kind) -> str:
+    """the Coq leafkind term"""
+    if isinstance(kind, tuple):
+        return "(LLit " + coq_list([c04.emit_val(m) for m in kind[1]], "val") + ")"
+    return kind
+
+
+def rterm(kind) -> str:
+    """the Coq routine term of Model/ScalarsEq.v"""
+    if isinstance(kind, tuple):
+        return "(RLit " + coq_list([c04.emit_val(m) for m in kind[1]], "val") + ")"
+    return KINDS[kind]
+
+
+def members_of(kind):
+    return kind[1] if isinstance(kind, tuple) else ()
 
 
 def gen_str(rng):
@@ -92,105 +119,127 @@ def gen_bytes(rng):
 
 
 def gen_valid(kind, rng):
-    """(T, value of exactly the class of T)"""
+    """(kind, T, value of exactly the class of T)"""
     g = c04.GEN
     if kind == "LInt":
-        return int, g["int"](rng)
+        return kind, int, g["int"](rng)
     if kind == "LFloat":
-        return float, rng.choice([g["float"](rng), float("inf"), float("-inf"), float("nan")])
+        return kind, float, rng.choice([g["float"](rng), float("inf"), float("-inf"), float("nan")])
     if kind == "LStr":
-        return str, gen_str(rng)
+        return kind, str, gen_str(rng)
     if kind == "LBytes":
-        return bytes, gen_bytes(rng)
+        return kind, bytes, gen_bytes(rng)
     if kind == "LDec":
-        return decimal.Decimal, rng.choice([g["decimal"](rng), decimal.Decimal("NaN"), decimal.Decimal("-Infinity")])
+        return kind, decimal.Decimal, rng.choice([g["decimal"](rng), decimal.Decimal("NaN"), decimal.Decimal("-Infinity")])
     if kind == "LFrac":
-        return fractions.Fraction, g["fraction"](rng)
+        return kind, fractions.Fraction, g["fraction"](rng)
     if kind == "LUuid":
-        return uuid.UUID, g["uuid"](rng)
+        return kind, uuid.UUID, g["uuid"](rng)
     if kind == "LPath":
         p = g["path"](rng)
-        return type(p), p
+        return kind, type(p), p
     if kind == "LEnum":
         E = rng.choice(LEAF_ENUMS)
-        return E, rng.choice(list(E))
+        return kind, E, rng.choice(list(E))
     if kind == "LDate":
-        return D.date, g["date"](rng)
+        return kind, D.date, g["date"](rng)
     if kind == "LDateTime":
-        return D.datetime, g["datetime"](rng)
+        return kind, D.datetime, g["datetime"](rng)
     if kind == "LTime":
-        return D.time, g["time"](rng)
+        return kind, D.time, g["time"](rng)
     if kind == "LTimeDelta":
-        return TD, rng.choice([g["timedelta"](rng), TD(0)])
+        return kind, TD, rng.choice([g["timedelta"](rng), TD(0)])
+    if kind == "LBool":
+        return kind, bool, rng.choice([True, False])
+    if kind == "LPattern":
+        return kind, re.Pattern, c04.gen_pattern(rng)
+    if kind == "LNone":
+        return kind, type(None), None
+    if kind == "LLit":
+        L = rng.choice(c04.LITERALS)
+        ms = typing.get_args(L)
+        return ("LLit", ms), L, rng.choice(ms)
     raise KeyError(kind)
 
 
 def gen_cross(kind, rng):
-    """(T, an input that is NOT of the class of T but inside the marshal-side model)"""
+    """(kind, T, an input that is NOT of the class of T but inside the marshal-side model)"""
     g = c04.GEN
     temporal = lambda: rng.choice([g["date"], g["datetime"], g["time"], g["timedelta"]])(rng)
+    sub = lambda: rng.choice([True, False] + MIXINS)
     if kind == "LInt":
         x = rng.choice([1.5, -2.7, 1e22, float("inf"), float("nan"), g["float"](rng), "12", " 7 ", "x", "1_000", "", "-0",
-                        str(g["int"](rng)), None, temporal(), pathlib.PurePosixPath("1")])
-        return int, x
+                        str(g["int"](rng)), None, temporal(), pathlib.PurePosixPath("1"), sub(), sub(), c04.EInt.one,
+                        c04.gen_pattern(rng)])
+        return kind, int, x
     if kind == "LFloat":
         x = rng.choice([3, 10 ** 400, g["int"](rng), "1.5", "nan", "abc", "1e400", " 2 ", "", None, temporal(),
-                        pathlib.PurePosixPath("1")])
-        return float, x
+                        pathlib.PurePosixPath("1"), sub(), sub(), c04.EInt.one])
+        return kind, float, x
     if kind in ("LStr", "LDec", "LFrac", "LUuid", "LPath"):
-        T = gen_valid(kind, rng)[0]
+        T = gen_valid(kind, rng)[1]
         x = rng.choice([g["int"](rng), g["float"](rng), g["decimal"](rng), g["fraction"](rng), g["uuid"](rng), g["path"](rng),
-                        g["date"](rng), g["time"](rng), None, gen_str(rng)])
-        return T, x
+                        g["date"](rng), g["time"](rng), None, gen_str(rng), sub(), c04.EInt.one])
+        return kind, T, x
     if kind == "LBytes":
-        return bytes, rng.choice([5, "abc", None, g["date"](rng), bytearray(b"q"), 1.5])
+        return kind, bytes, rng.choice([5, "abc", None, g["date"](rng), bytearray(b"q"), 1.5, sub()])
     if kind == "LEnum":
         E = rng.choice(LEAF_ENUMS)
         other = rng.choice([e for e in LEAF_ENUMS if e is not E])
-        return E, rng.choice([1, "one", None, 1.5, g["date"](rng), rng.choice(list(other)), b"yy"])
-    T = gen_valid(kind, rng)[0]
+        return kind, E, rng.choice([1, "one", None, 1.5, g["date"](rng), rng.choice(list(other)), b"yy", True])
+    if kind == "LBool":
+        x = rng.choice(["false", "", "0", 0, 2, None, 1.5, 0.0, -0.0, float("nan"), b"", b"x", bytearray(b""), memoryview(b"q"),
+                        decimal.Decimal(0), decimal.Decimal("0.0"), fractions.Fraction(0), TD(0), TD(1), temporal(), g["uuid"](rng),
+                        g["path"](rng), sub(), c04.EInt.one, c04.gen_pattern(rng), g["int"](rng), g["float"](rng)])
+        return kind, bool, x
+    if kind == "LPattern":
+        return kind, re.Pattern, rng.choice(["a+", b"a", 5, None, True, c04.ESMix.a, g["date"](rng), 1.5])
+    if kind == "LNone":
+        return kind, type(None), rng.choice([0, "null", "", False, b"", 1.5, g["date"](rng), sub()])
+    if kind == "LLit":
+        L = rng.choice(c04.LITERALS)
+        ms = typing.get_args(L)
+        x = rng.choice([True, False, 1, 0, 1.0, 0.0, 2, 7, "a", "1", "auto", "x", b"x", b"a", None, decimal.Decimal(1),
+                        fractions.Fraction(1), sub(), c04.EInt.one, c04.EInt.two, g["date"](rng), bytearray(b"x"), memoryview(b"x")])
+        return ("LLit", ms), L, x
+    T = gen_valid(kind, rng)[1]
     x = rng.choice([temporal(), temporal(), 5, 1.5, "x", None, b"x", bytearray(b"x"), memoryview(b"x"),
-                    memoryview(bytearray(b"x")), g["decimal"](rng), g["uuid"](rng), rng.choice(list(c04.EInt))])
-    return T, x
+                    memoryview(bytearray(b"x")), g["decimal"](rng), g["uuid"](rng), rng.choice(list(c04.EInt)), sub()])
+    return kind, T, x
 
 
 # ----------------------------------------------------------------------------------
 # interpreter answers for the marshal side (never through typelib)
 # ----------------------------------------------------------------------------------
 
-def answers(**kw) -> str:
-    un = lambda ty: f"(@Unmodelled {ty})"
-    f = {k: "[]" for k in ("a_utf8", "a_int", "a_tok", "a_parse", "a_timeiso", "a_isdigit")}
-    f.update(a_canon='""%string', a_uuid_int=un("tok"), a_enum_text=un("tok"), a_enum_loaded=un("tok"), a_load=un("val"),
-             a_int_of_float=un("Z"), a_float_of_int=un("tok"), a_fromts=un("dtf"), a_timestamp=un("tok"),
-             a_total_seconds='""%string', a_tdsec=un("(Z * Z * Z)"))
-    f.update(kw)
-    return "{| " + "; ".join(f"{k} := {v}" for k, v in f.items()) + " |}"
-
-
-def marshal_answers(x):
+def marshal_answers(kind, x):
     """what the marshal-side model may ask the interpreter about the input x; and the answer to x.value"""
     cs, tokv = c04.cs, (lambda v: c04.cs(c04.tok(v)))
     kw = {}
+    is_enum = isinstance(x, enum.Enum)
+    is_text = isinstance(x, (str, bytes, bytearray, memoryview)) and not is_enum
     if isinstance(x, (D.date, D.time)):
         kw["a_canon"] = cs(x.isoformat())
-    elif not isinstance(x, (str, bytes, bytearray, memoryview)):
+    elif not is_text:
         kw["a_canon"] = cs(str(x))
-    if isinstance(x, str):
-        kw["a_int"] = coq_list([f"({cs(x)}, {c04.emit_res(lambda: int(x), coq_Z, 'Z')})"])
-        kw["a_tok"] = coq_list([f"({cs('float:' + x)}, {c04.emit_res(lambda: float(x), tokv, 'tok')})"])
+    s = x if (is_text and isinstance(x, str)) else (c04.base_of(x) if is_enum and isinstance(x, str) else None)
+    if s is not None:
+        kw["a_int"] = coq_list([f"({cs(s)}, {c04.emit_res(lambda: int(s), coq_Z, 'Z')})"])
+        kw["a_tok"] = coq_list([f"({cs('float:' + s)}, {c04.emit_res(lambda: float(s), tokv, 'tok')})"])
     if isinstance(x, float):
         kw["a_int_of_float"] = c04.emit_res(lambda: int(x), coq_Z, "Z")
-    if isinstance(x, int) and not isinstance(x, bool):
+    if isinstance(x, int):
         kw["a_float_of_int"] = c04.emit_res(lambda: float(x), tokv, "tok")
+    ms = members_of(kind)
+    kw.update(c04.tables([x] + list(ms), members=[x] if ms else (), cands=ms, truth=[x] if kname(kind) == "LBool" else ()))
     ev = "(@Unmodelled val)"
-    if isinstance(x, enum.Enum):
-        ev = f"(Ok {c04.emit_val(x.value)})"
-    return answers(**kw), ev
+    if is_enum:
+        ev = f"(Ok {c04.emit_val(x.value)})" if c04.in_val(x.value) else f"(Ok (VOther {cs(repr(x.value)[:60])}))"
+    return c04.answers(**kw), ev
 
 
 def describable(x) -> bool:
-    return not isinstance(x, bool)
+    return c04.in_val(x) or isinstance(x, (tuple, list))
 
 
 def eval_shards(run, prefix, fns, coq_cases, first="(L"):
@@ -227,18 +276,20 @@ def corr_marshallers(run):
              ("LDate", D.date, D.datetime(2020, 1, 1, 17, tzinfo=c04.UTC), "fixed"), ("LDateTime", D.datetime, D.date(2020, 1, 1), "fixed"),
              ("LEnum", EBytes, EBytes.c, "fixed"), ("LEnum", c04.EIntEnum, c04.EIntEnum.x, "fixed"), ("LInt", int, "12", "fixed"),
              ("LInt", int, float("inf"), "fixed"), ("LStr", str, None, "fixed"), ("LUuid", uuid.UUID, 5, "fixed"),
-             ("LTimeDelta", TD, bytearray(b"x"), "fixed"), ("LPath", pathlib.PurePosixPath, pathlib.PureWindowsPath("C:/x"), "fixed")]
+             ("LTimeDelta", TD, bytearray(b"x"), "fixed"), ("LPath", pathlib.PurePosixPath, pathlib.PureWindowsPath("C:/x"), "fixed"),
+             ("LInt", int, True, "fixed"), ("LBool", bool, "false", "fixed"), ("LStr", str, c04.ESMix.a, "fixed"),
+             ("LPattern", re.Pattern, re.compile("a+", re.I), "fixed"), ("LPattern", re.Pattern, re.compile(b"a"), "fixed"),
+             (("LLit", (1, "a")), typing.Literal[1, "a"], True, "fixed"), (("LLit", (1, "a")), typing.Literal[1, "a"], 1, "fixed"),
+             ("LNone", type(None), None, "fixed"), ("LNone", type(None), 0, "fixed")]
     items = list(fixed)
     i = 0
     while len(items) < n:
         kind = kinds[i % len(kinds)]
         i += 1
         if rng.random() < 0.7:
-            T, x = gen_valid(kind, rng)
-            items.append((kind, T, x, "valid"))
+            items.append(gen_valid(kind, rng) + ("valid",))
         else:
-            T, x = gen_cross(kind, rng)
-            items.append((kind, T, x, "crossing"))
+            items.append(gen_cross(kind, rng) + ("crossing",))
     cases, coq, dist = [], [], {}
     for kind, T, x, cls in items:
         if not describable(x):
@@ -251,11 +302,11 @@ def corr_marshallers(run):
             o = f"(Ok {c04.emit_val(obs)})"
         except Exception as e:
             obs, o = e, f"(@Raise val {c04.exn(e)})"
-        a, ev = marshal_answers(x)
-        cases.append({"layer": "leaf-marshallers", "kind": kind, "type": getattr(T, "__name__", str(T)), "input": repr(x)[:120],
+        a, ev = marshal_answers(kind, x)
+        cases.append({"layer": "leaf-marshallers", "kind": kname(kind), "type": getattr(T, "__name__", str(T)), "input": repr(x)[:120],
                       "class": cls, "observed": repr(obs)[:160]})
-        coq.append(f"({kind}, {a}, {ev}, {c04.emit_val(x)}, {o})")
-        key = f"{kind}:{cls}"
+        coq.append(f"({kterm(kind)}, {a}, {ev}, {c04.emit_val(x)}, {o})")
+        key = f"{kname(kind)}:{cls}"
         dist[key] = dist.get(key, 0) + 1
     bad, unm, kindbad = eval_shards(run, "mar", ["marshal_case_ok", "(fun c => negb (marshal_unmodelled c))", "marshal_kind_ok"], coq)
     dist["model_returned_Unmodelled"] = len(unm)
@@ -278,13 +329,14 @@ def corr_round(run):
     kinds = list(KINDS)
     items = [("LTimeDelta", TD, TD(0)), ("LDateTime", D.datetime, D.datetime(2020, 1, 1, 17, 0, 0, 999999, tzinfo=D.timezone(TD(minutes=330)), fold=1)),
              ("LTime", D.time, D.time(3, 4, 5, tzinfo=D.timezone(TD(minutes=-1439)), fold=1)), ("LEnum", EBytes, EBytes.c),
-             ("LEnum", ETuple, ETuple.p), ("LEnum", ETuple, ETuple.n), ("LTimeDelta", TD, TD.max), ("LTimeDelta", TD, TD.min)]
+             ("LEnum", ETuple, ETuple.p), ("LEnum", ETuple, ETuple.n), ("LTimeDelta", TD, TD.max), ("LTimeDelta", TD, TD.min),
+             ("LPattern", re.Pattern, re.compile("a+", re.I)), ("LPattern", re.Pattern, re.compile(b"a")),
+             ("LBool", bool, True), ("LNone", type(None), None)]
     i = 0
     while len(items) < n:
         kind = kinds[i % len(kinds)]
         i += 1
-        T, x = gen_valid(kind, rng)
-        items.append((kind, T, x))
+        items.append(gen_valid(kind, rng))
     cases, coq, dist = [], [], {}
     for kind, T, x in items:
         impl.clear_caches()
@@ -294,15 +346,15 @@ def corr_round(run):
             continue
         if not describable(w):
             continue
-        am, ev = marshal_answers(x)
+        am, ev = marshal_answers(kind, x)
         try:
-            au = c04.answers_for(KINDS[kind][0], T, w)
+            au = c04.answers_for(KINDS[kname(kind)], T, w, members_of(kind), also=[x])
         except Exception as e:
             run.notes.append(f"leaf-round: skipped undescribable wire form {kind} {w!r}: {e!r}")
             continue
-        cases.append({"layer": "leaf-round", "kind": kind, "type": getattr(T, "__name__", str(T)), "value": repr(x)[:120], "wire": repr(w)[:120]})
-        coq.append(f"({kind}, {am}, {ev}, {c04.emit_val(x)}, {au})")
-        dist[kind] = dist.get(kind, 0) + 1
+        cases.append({"layer": "leaf-round", "kind": kname(kind), "type": getattr(T, "__name__", str(T)), "value": repr(x)[:120], "wire": repr(w)[:120]})
+        coq.append(f"({kterm(kind)}, {am}, {ev}, {c04.emit_val(x)}, {au})")
+        dist[kname(kind)] = dist.get(kname(kind), 0) + 1
     bad_exact, bad_sim, out_strict, out_lax = eval_shards(
         run, "round", ["round_exact_ok", "round_sim_ok", "(round_in_range true)", "(round_in_range false)"], coq)
     dist["outside_strict_range(fold 1, enum value a bytes object, ...)"] = len(out_strict)
@@ -351,7 +403,7 @@ def sample_coding(run):
         vals = list(twins)
         for kind in KINDS:
             for _ in range(4):
-                vals.append(gen_valid(kind, rng)[1])
+                vals.append(gen_valid(kind, rng)[2])
         vals = [v for v in vals if describable(v)]
         keys = [(reg.atom(v), c04.emit_val(v)) for v in vals]
         for i in range(len(vals)):
@@ -426,13 +478,18 @@ def sample_laws(run):
 # ----------------------------------------------------------------------------------
 
 def kind_of_class(t):
-    """the leaf kind of the scalar model for a leaf class of the core harness (exact classes; enums and paths by base)"""
-    if not isinstance(t, type) or t is bool:
+    """the leaf kind of the scalar model for a leaf type of the core harness (exact classes; enums and paths by base;
+    a Literal by its declared values)"""
+    if typing.get_origin(t) is typing.Literal:
+        ms = typing.get_args(t)
+        return ("LLit", ms) if all(c04.in_val(m) for m in ms) else None
+    if not isinstance(t, type):
         return None
     if issubclass(t, enum.Enum):
         return "LEnum"
     exact = {int: "LInt", float: "LFloat", str: "LStr", bytes: "LBytes", decimal.Decimal: "LDec", fractions.Fraction: "LFrac",
-             uuid.UUID: "LUuid", D.date: "LDate", D.datetime: "LDateTime", D.time: "LTime", TD: "LTimeDelta"}
+             uuid.UUID: "LUuid", D.date: "LDate", D.datetime: "LDateTime", D.time: "LTime", TD: "LTimeDelta", bool: "LBool",
+             re.Pattern: "LPattern", type(None): "LNone"}
     if t in exact:
         return exact[t]
     if issubclass(t, pathlib.PurePath):
@@ -440,17 +497,7 @@ def kind_of_class(t):
     return None
 
 
-def in_val(x) -> bool:
-    """x is a value of the scalar model's universe (Temporal.val, aware temporals with whole-minute offsets)"""
-    if x is None or isinstance(x, enum.Enum):
-        return True
-    if isinstance(x, bool):
-        return False
-    if isinstance(x, (D.datetime, D.time)):
-        o = x.utcoffset()
-        return o is not None and not o.microseconds and o.seconds % 60 == 0
-    return type(x) in (int, float, str, bytes, bytearray, memoryview, decimal.Decimal, fractions.Fraction, uuid.UUID,
-                       D.date, TD) or isinstance(x, pathlib.PurePath)
+in_val = c04.in_val
 
 
 _ATOM = re.compile(r"^\(PAtom (\d+)%nat\)$")
@@ -469,56 +516,14 @@ def _obj_of(reg, names, term):
     return False, None
 
 
-def subclass_case(kind, x) -> bool:
-    """inputs whose treatment hinges on a subclass relation Temporal.val has no constructor for: a member of a
-    str / int / float mixin enum IS a str / int / float; True IS an int (UUIDUnmarshaller: UUID(int=True))"""
-    if isinstance(x, enum.Enum) and kind != "LEnum" and isinstance(x, (str, int, float, bytes)):
-        return True
-    if kind == "LUuid":
-        try:
-            return isinstance(c04.py_load(x), bool)
-        except Exception:
-            return False
-    return False
-
-
-def enum_table(kind, T, x) -> str:
-    """E(v) for the values EnumUnmarshaller may look up on input x: the decoded input and the loaded one"""
-    if kind != "LEnum":
-        return "(@nil (val * res tok))"
-    cands = []
-    if isinstance(x, (str, bytes, bytearray, memoryview)):
-        _, s = c04.text_of(x)
-        if s is not None:
-            cands.append(s)
-    else:
-        cands.append(x)
-    try:
-        cands.append(c04.py_load(x))
-    except Exception:
-        pass
-    rows, seen = [], set()
-    for c in cands:
-        if not in_val(c):
-            continue
-        k = c04.emit_val(c)
-        if k in seen:
-            continue
-        seen.add(k)
-        rows.append(f"({k}, {c04.emit_res(lambda c=c: T(c), lambda v: c04.cs(c04.tok(v)), 'tok')})")
-    return coq_list(rows, "(val * res tok)") if rows else "(@nil (val * res tok))"
-
-
 def leaf_tables_tie(run, groups, tag):
     """every scalar leaf call the core mirror recorded on this run (leaf_u / leaf_m / none_u tables of the runtime the
     core correspondence evaluates Core.unm / Core.mar on), re-evaluated on the scalar model"""
     ucases, mcases, ncases = [], [], []
     ucoq, mcoq, ncoq = [], [], []
-    skipped = {"leaf outside the scalar model (bool, Any, Literal, bare containers, exotic)": 0,
-               "input is not a scalar of Temporal.val (container, bool, naive temporal, other object)": 0,
-               "result is not a scalar of Temporal.val": 0,
-               "bool / mixin subclass relations Temporal.val does not have (str-mixin enum member given to str, text that loads "
-               "to a bool given to UUID)": 0}
+    skipped = {"leaf outside the scalar model (Any, bare containers, exotic)": 0,
+               "input is not a scalar of Temporal.val (container, naive temporal, other object)": 0,
+               "result is not a scalar of Temporal.val": 0}
 
     def obs_term(reg, names, res):
         m = _OK.match(res)
@@ -536,31 +541,27 @@ def leaf_tables_tie(run, groups, tag):
                 T = reg.leaf_py.get(s)
                 kind = kind_of_class(T)
                 if kind is None:
-                    skipped["leaf outside the scalar model (bool, Any, Literal, bare containers, exotic)"] += 1
+                    skipped["leaf outside the scalar model (Any, bare containers, exotic)"] += 1
                     continue
                 ok, x = _obj_of(reg, names, key)
                 if not ok or not in_val(x):
-                    skipped["input is not a scalar of Temporal.val (container, bool, naive temporal, other object)"] += 1
+                    skipped["input is not a scalar of Temporal.val (container, naive temporal, other object)"] += 1
                     continue
                 o, robj = obs_term(reg, names, res)
                 if o is None:
                     skipped["result is not a scalar of Temporal.val"] += 1
                     continue
-                if subclass_case(kind, x):
-                    skipped["bool / mixin subclass relations Temporal.val does not have (str-mixin enum member given to str, text "
-                            "that loads to a bool given to UUID)"] += 1
-                    continue
-                desc = {"layer": "leaf-tables", "side": side, "kind": kind, "type": getattr(T, "__name__", str(T)),
+                desc = {"layer": "leaf-tables", "side": side, "kind": kname(kind), "type": getattr(T, "__name__", str(T)),
                         "input": repr(x)[:120], "observed": res[:80] if robj is None else repr(robj)[:120]}
                 try:
                     if side == "u":
-                        a = c04.answers_for(KINDS[kind][0], T, x)
+                        a = c04.answers_for(KINDS[kname(kind)], T, x, members_of(kind))
                         ucases.append(desc)
-                        ucoq.append(f"({KINDS[kind][0]}, {a}, {enum_table(kind, T, x)}, {c04.emit_val(x)}, {o})")
+                        ucoq.append(f"({rterm(kind)}, {a}, {c04.emit_val(x)}, {o})")
                     else:
-                        a, ev = marshal_answers(x)
+                        a, ev = marshal_answers(kind, x)
                         mcases.append(desc)
-                        mcoq.append(f"({kind}, {a}, {ev}, {c04.emit_val(x)}, {o})")
+                        mcoq.append(f"({kterm(kind)}, {a}, {ev}, {c04.emit_val(x)}, {o})")
                 except Exception as e:
                     run.notes.append(f"leaf-tables: skipped undescribable case {kind} {x!r}: {e!r}")
         for key, res in g.mirror.t.nu.items():
@@ -571,7 +572,7 @@ def leaf_tables_tie(run, groups, tag):
                 ncoq.append(None if res.startswith("(Raise") else False)
                 continue
             if not in_val(x):
-                skipped["input is not a scalar of Temporal.val (container, bool, naive temporal, other object)"] += 1
+                skipped["input is not a scalar of Temporal.val (container, naive temporal, other object)"] += 1
                 continue
             o, _ = obs_term(reg, names, res)
             if o is None:
@@ -582,7 +583,7 @@ def leaf_tables_tie(run, groups, tag):
                 b, s = c04.text_of(x)
                 utf8 = coq_list([f"({c04.cs(b)}, {'(Ok ' + c04.cs(s) + ')' if s is not None else '(@Raise string EValue)'})"])
             ncases.append({"layer": "leaf-tables", "side": "none", "input": repr(x)[:120], "observed": res[:80]})
-            ncoq.append(f"({answers(a_utf8=utf8) if b is not None else answers()}, {c04.emit_val(x)}, {o})")
+            ncoq.append(f"({c04.answers(a_utf8=utf8) if b is not None else c04.answers()}, {c04.emit_val(x)}, {o})")
     container_bad = [ncases[i] for i, c in enumerate(ncoq) if c is False]
     keep = [i for i, c in enumerate(ncoq) if isinstance(c, str)]
     dist = {"unmarshal_calls": len(ucases), "marshal_calls": len(mcases), "none_calls": len(ncases), "skipped": skipped}
@@ -591,7 +592,7 @@ def leaf_tables_tie(run, groups, tag):
         k = f"{c['side']}:{c['kind']}"
         by[k] = by.get(k, 0) + 1
     dist["by_side_and_kind"] = by
-    ubad, uunm = eval_shards(run, f"tblu_{tag}", ["unmarshal_case_ok", "(fun c => negb (unmarshal_unmodelled c))"], ucoq, first="(R")
+    ubad, uunm = eval_shards(run, f"tblu_{tag}", ["routine_case_ok", "(fun c => negb (routine_unmodelled c))"], ucoq, first="(R")
     mbad, munm = eval_shards(run, f"tblm_{tag}", ["marshal_case_ok", "(fun c => negb (marshal_unmodelled c))"], mcoq)
     (nbad,) = eval_shards(run, f"tbln_{tag}", ["none_case_ok"], [ncoq[i] for i in keep], first="({")
     ubad = [i for i in ubad if i not in set(uunm)]
@@ -629,6 +630,6 @@ def obligations(run, groups=None, tag="core", props=True, streams=True):
         "path enum date datetime time timedelta (Props/LeafBridge.v); what remains assumed there: Scalars.RuntimeLaws "
         "(sampled by C04), FoldLaws, LoadLaws, Utf8Total (sampled here), and that the scalar models mirror the "
         "routines (C04's routines stream for the unmarshal side, the leaf-marshallers stream here for the marshal side)",
-        "leaf bridge: bool, Pattern, Literal, Any and bare containers are leaves of the core model outside the scalar "
-        "model; for them the leaf laws stay sampled hypotheses; a str equal to a field name (PKey) is outside too",
+        "leaf bridge: Any, bare containers and exotic leaves of the core model are outside the scalar model; for them "
+        "the leaf laws stay sampled hypotheses",
     ]
